@@ -444,6 +444,7 @@ impl <N: Numeric> ArrayCreateNumeric<N> for Array<N> {
 
     fn arange(start: N, stop: N, step: Option<N>) -> Result<Self, ArrayError> {
         let step = step.unwrap_or_else(N::one).to_f64();
+        if step == 0. { return Err(ArrayError::ParameterError { param: "step", message: "cannot be zero" }) }
         let size = ((stop.to_f64() + 1. - start.to_f64()) / step).to_usize();
         let mut elements = Vec::with_capacity(size);
         let mut value = start.to_f64();
